@@ -115,7 +115,65 @@ func runC10(s *core.Sim, tier string) RunInfo {
 		ncases = 30
 	}
 	for c := 0; c < ncases && !s.Failed(); c++ {
-		kind := core.Pick(s.Tape, "req-kind", []string{"range", "range", "range", "range", "hash", "garbage", "slow-store", "half-frame", "dirty-then-short", "two-hashes"})
+		kind := core.Pick(s.Tape, "req-kind", []string{"range", "range", "range", "range", "hash", "garbage", "slow-store", "half-frame", "dirty-then-short", "two-hashes", "range-growing"})
+		if kind == "range-growing" {
+			// the server's store grows while a range request near its head is being served (every
+			// store call of the server is a park point here): still no more than the requested
+			// heights are read, and what is sent are the store's headers
+			n := uint64(1 + s.Tape.Draw("grow-by", 120))
+			origin := H - uint64(s.Tape.Draw("near-head", 5))
+			if origin < tail {
+				origin = tail
+			}
+			amount := core.Pick(s.Tape, "amount", []uint64{1, 2, 5, 63, 64})
+			xs.Rec.Delay = func(string) time.Duration { return time.Millisecond }
+			xs.Rec.ResetCounts()
+			cases = append(cases, fmt.Sprintf("range origin=%d amount=%d while the store grows %d..%d", origin, amount, H+1, H+n))
+			var resp rawResp
+			tr := s.Go("request", func() {
+				resp = w.rawRequest(1, frameReq(&p2p_pb.HeaderRequest{Data: &p2p_pb.HeaderRequest_Origin{Origin: origin}, Amount: amount}), true, maxWait)
+			})
+			growAfter := time.Duration(s.Tape.Draw("grow-after-ms", 4)) * time.Millisecond
+			ta := s.Go("server-store-grows", func() {
+				// (virtual time only passes when nobody can run: without a delay of its own the
+				// growth would always be over before the request has reached the server's store)
+				s.YieldAfter("grow-after", growAfter)
+				_ = xs.Rec.Store.Append(context.Background(), w.Ch.Range(H+1, H+n)...)
+				_ = xs.Rec.Store.Sync(context.Background())
+			})
+			stuck := s.Settle(maxWait+5*time.Second, tr, ta)
+			xs.Rec.Delay = nil
+			oldH := H
+			H += n
+			if len(stuck) > 0 || resp.timedOut {
+				s.Violate("server-hang", map[string]string{"req": kind}, "range request while the store grows: the server did not finish within %v", maxWait)
+				break
+			}
+			_, _, calls := xs.Rec.Counts()
+			var hdrReads uint64
+			for _, c := range calls {
+				var a, b uint64
+				if k, _ := fmt.Sscanf(c, "GetRange(%d,%d)", &a, &b); k == 2 && b > a {
+					hdrReads += b - a
+				}
+			}
+			if hdrReads > amount {
+				s.Violate("excess-store-reads", map[string]string{"pruned": "false", "growing": "true"}, "request origin=%d amount=%d while the store grew from head %d to %d made the server read %d headers (calls %v)", origin, amount, oldH, H, hdrReads, calls)
+				break
+			}
+			for i, f := range resp.frames {
+				if f.StatusCode != p2p_pb.StatusCode_OK {
+					continue
+				}
+				h := new(simhdr.H)
+				if err := h.UnmarshalBinary(f.Body); err != nil || !simhdr.Equal(h, w.Ch.At(origin+uint64(i))) || uint64(i) >= amount {
+					s.Violate("false-data", map[string]string{"req": "range", "growing": "true"}, "request origin=%d amount=%d while the store grew: frame %d is %v (err %v)", origin, amount, i, h, err)
+					break
+				}
+			}
+			s.Probe("range-request-while-store-grows")
+			continue
+		}
 		if kind == "two-hashes" {
 			// two hash requests in flight at once against a store that takes its time: each is
 			// answered with the header of its own hash (nothing of one request leaks into the other)
